@@ -71,7 +71,7 @@ def body(ck, F, cfg):
         msg = ""
         if not eqv:
             word, side = w
-            msg = f"{name} schedule differs from the reference schedule after prefix [{' '.join(S.show_regex(('sym', s)) for s in word[-6:])}] ({side}: 'first'={name}, 'second'=reference)"
+            msg = f"{name} schedule differs from the reference schedule at [... {' '.join(S.show_regex(('sym', s)) for s in word[-4:])}] ({side}; first={name}, second=reference)"
         ck.require(eqv, "R06.1", f"{name}==reference", msg, "src/r1cs/" + name + ".rs")
     for name, parts in (("verifier", parts_v), ("prover", parts_p)):
         ck.require(parts["commit"] == SC.sym_pt("V", "V[*]"), "R06.1", f"{name}:commit-absorbs-V", f"commit must absorb the commitment unconditionally with label V; its schedule is `{S.show_regex(parts['commit'])}`", "src/r1cs/" + name + ".rs")
@@ -80,7 +80,7 @@ def body(ck, F, cfg):
     msg = ""
     if not eqv:
         word, side = w
-        msg = f"prover and verifier schedules diverge after [{' '.join(S.show_regex(('sym', s)) for s in word[-6:])}] ({side}; first=verifier)"
+        msg = f"prover and verifier schedules diverge at [... {' '.join(S.show_regex(('sym', s)) for s in word[-4:])}] ({side}; first=verifier, second=prover)"
     ck.require(eqv, "R06.1", "prover==verifier", msg)
     # R06.2 binding order: must-precede sets of every challenge
     is_ch = lambda s: s[0] == "challenge" or s == END
